@@ -173,3 +173,136 @@ def crosscheck_locks(seed=0, rounds=400):
     return [dict(id='C16:CROSSCHECK.spec-functions-agree-with-CPython', unit='crosscheck.locks', path='%d native comparisons, seed %d' % (rounds, seed),
                  status='discharged' if not bad else 'checker-error', solver='cpython-differential(bounded)', secs=time.time() - t0,
                  model={'disagreements': bad[:5]}, info=(bad[0] if bad else '%d comparisons agree' % rounds), line=None, bounded=True)]
+
+
+def crosscheck_handlers(seed=0, rounds=60):
+    """engine-vs-CPython cross-check (DESIGN §2.4.4): random concrete pre-states and messages are pushed through the real
+    SyncObj.__onMessageReceived under CPython and through the pyvc interpreter (same AST, same summaries as the units); the
+    post-states must agree.  A disagreement is a checker error (unsound engine or wrong summary)."""
+    sys.path.insert(0, os.environ.get('PYVC_REPO', '/repo'))
+    here = os.path.dirname(os.path.dirname(os.path.abspath(__file__)))
+    sys.path.insert(0, here)
+    import replay as native
+    from pyvc.ctx import PathCtx, PathAbort
+    from contracts.so_model import SO, make_interp, run_method, LogCell, CmdV, F, _ctype
+    from contracts.so_common import SUMMARIES
+    from contracts.so_msg import HANDLER, INL
+    rnd = random.Random(seed)
+    bad = []
+    t0 = time.time()
+    done = 0
+    U = 3
+    for _ in range(rounds):
+        n = rnd.randint(1, 5)
+        terms = sorted(rnd.randint(0, 3) for _ in range(n))
+        model = {'voters': [rnd.random() < 0.8 for _ in range(U)] + [False], 'raftState': rnd.randint(0, 2), 'raftCurrentTerm': rnd.randint(max(terms), 4),
+                 'votedForNodeId': rnd.choice([None, 0, 1, U]), 'votesCount': rnd.randint(0, 2), 'raftCommitIndex': rnd.randint(1, n), 'raftLastApplied': 1,
+                 'log_first': 1, 'log_len': n, 'log_terms_0_7': terms + [0] * 8, 'node': rnd.randint(0, U - 1),
+                 'next': {'present': [True] * U, 'vals': [rnd.randint(1, n + 1) for _ in range(U)]},
+                 'match': {'present': [True] * U, 'vals': [rnd.randint(0, n) for _ in range(U)]},
+                 'lastResp': {'present': [True] * U, 'vals': [0.0] * U}}
+        kind = rnd.choice(['request_vote', 'next_node_idx', 'append_entries'])
+        if kind == 'request_vote':
+            msg = {'type': kind, 'term': rnd.randint(0, 5), 'last_log_index': rnd.randint(0, n + 1), 'last_log_term': rnd.randint(0, 4)}
+        elif kind == 'next_node_idx':
+            msg = {'type': kind, 'next_node_idx': rnd.randint(1, n + 2), 'reset': rnd.random() < 0.5, 'success': rnd.random() < 0.5}
+        else:
+            p = rnd.randint(0, n + 1)
+            k = rnd.randint(0, 3)
+            et = sorted(rnd.randint(0, 4) for _ in range(k))
+            msg = {'type': kind, 'term': rnd.randint(0, 5), 'commit_index': rnd.randint(0, n + 3), 'prevLogIdx': p,
+                   'prevLogTerm': rnd.randint(0, 3), 'entries': [(b'\\x01', p + 1 + i, et[i]) for i in range(k)]}
+        # ---- native
+        r = native.mk_syncobj(model, U)
+        if r is None:
+            continue
+        obj, tr, nodes = r
+        try:
+            obj._SyncObj__onMessageReceived(nodes[model['node']], dict(msg))
+            nat_exc = None
+        except Exception as e:
+            nat_exc = type(e).__name__
+        nat = dict(term=obj.raftCurrentTerm, role=getattr(obj, '_SyncObj__raftState'), commit=obj.raftCommitIndex,
+                   voted=getattr(obj, '_SyncObj__votedForNodeId'), log=[(e[1], e[2]) for e in native.log_list(obj)],
+                   sent=[sorted((k, v) for k, v in m.items() if k not in ('entries',)) for _, m in tr.sent],
+                   match=[getattr(obj, '_SyncObj__raftMatchIndex').get(nd) for nd in nodes], exc=nat_exc)
+        # ---- pyvc with every input concrete
+        ctx = PathCtx()
+        so = SO(ctx, U)
+        c = ctx.cell(so.selfref)
+        tl = list(terms)
+        cmds = [FreshInt('c') for _ in range(n)]
+        for cc in cmds:
+            ctx.assume(_ctype(cc) == 1)
+        lc = LogCell(1, n, (lambda i, cmds=cmds: pick_(i, cmds)), (lambda i, tl=tl: pick_(i, [z3.IntVal(t) for t in tl])), z3.IntVal(1))
+        ctx.setcell(so.logref, lc)
+        vf = model['votedForNodeId']
+        c = c.with_field(F('raftState'), model['raftState']).with_field(F('raftCurrentTerm'), model['raftCurrentTerm'])
+        c = c.with_field(F('votedForNodeId'), None if vf is None else NodeId(vf)).with_field(F('votesCount'), model['votesCount'])
+        c = c.with_field(F('raftCommitIndex'), model['raftCommitIndex']).with_field(F('raftLastApplied'), 1)
+        c = c.with_field(F('selfNode'), NodeV(U)).with_field(F('noopIDx'), 1)
+        ctx.setcell(so.selfref, c)
+        ctx.setcell(so.other, NSet(list(model['voters'])))
+        ctx.setcell(so.readonly, NSet([False] * (U + 1)))
+        ctx.setcell(so.connected, NSet([True] * U + [False]))
+        ctx.setcell(so.nexti, NMap([True] * U + [False], model['next']['vals'] + [0]))
+        ctx.setcell(so.matchi, NMap([True] * U + [False], model['match']['vals'] + [0]))
+        ctx.setcell(so.lastresp, NMap([True] * U + [False], [z3.RealVal(0)] * (U + 1)))
+        conf = ctx.cell(so.confref)
+        ctx.setcell(so.confref, conf.with_field('dynamicMembershipChange', False).with_field('appendEntriesUseBatch', True).with_field('onStateChanged', None))
+        m2 = dict(msg)
+        if 'entries' in m2:
+            ecmd = [CmdV(FreshInt('ec')) for _ in m2['entries']]
+            m2['entries'] = ctx.alloc(PList([(ecmd[i], e[1], e[2]) for i, e in enumerate(m2['entries'])]))
+        I = make_interp(ctx, so, registry=SUMMARIES, inline=INL)
+        try:
+            kind_, v = run_method(I, so, HANDLER, [NodeV(model['node']), ctx.alloc(PDict(m2))])
+            sym_exc = None if kind_ == 'ok' else v.typ
+        except PathAbort:
+            continue
+        if ctx.s.check() != z3.sat:
+            bad.append('path condition of a concrete run is not satisfiable (%s)' % kind)
+            continue
+        mdl = ctx.s.model()
+
+        def ev(x):
+            if isinstance(x, z3.ExprRef):
+                r_ = mdl.eval(x, model_completion=True)
+                if z3.is_int_value(r_):
+                    return r_.as_long()
+                if z3.is_true(r_):
+                    return True
+                if z3.is_false(r_):
+                    return False
+                return str(r_)
+            return x
+        lg = so.log()
+        nlen = ev(to_z3(lg.n))
+        vt = so.get('votedForNodeId')
+        if isinstance(vt, Opt):
+            vt = None if ev(vt.isnone) else vt.val
+        voted = None if vt is None else ('self:1' if ev(vt.idx) >= U else 'n%d:1' % ev(vt.idx))
+        sent = []
+        for to, mm in ctx.glist('outbox'):
+            if isinstance(mm, PDict):
+                sent.append(sorted((k, ev(v_)) for k, v_ in mm.items.items() if k not in ('entries',)))
+        symb = dict(term=ev(so.get('raftCurrentTerm')), role=ev(so.get('raftState')), commit=ev(so.get('raftCommitIndex')), voted=voted,
+                    log=[(ev(to_z3(lg.first) + i), ev(lg.termf(z3.IntVal(i)))) for i in range(nlen)], sent=sent,
+                    match=[ev(x) for x in so.cell('raftMatchIndex').vals[:U]], exc=(None if sym_exc is None else sym_exc))
+        done += 1
+        if symb != nat:
+            diff = dict((k, (nat[k], symb[k])) for k in nat if nat[k] != symb[k])
+            bad.append('%s %r on %r: native vs pyvc differ in %r' % (kind, msg, {k: model[k] for k in ('raftState', 'raftCurrentTerm', 'votedForNodeId', 'raftCommitIndex', 'log_terms_0_7', 'voters')}, diff))
+    return [dict(id='*:CROSSCHECK.engine-agrees-with-CPython-on-concrete-handler-runs', unit='crosscheck.handlers', path='%d concrete runs, seed %d' % (done, seed),
+                 status='discharged' if not bad else 'checker-error', solver='cpython-differential(bounded)', secs=time.time() - t0,
+                 model={'disagreements': bad[:3]}, info=(bad[0] if bad else '%d concrete runs agree' % done), line=None, bounded=True)]
+
+
+def pick_(i, exprs):
+    i = to_z3(i)
+    if not exprs:
+        return z3.IntVal(0)
+    r = exprs[-1]
+    for k in range(len(exprs) - 2, -1, -1):
+        r = z3.If(i == k, exprs[k], r)
+    return r
